@@ -446,6 +446,7 @@ def leftover_worlds(sc, seed, tier, stats):
         base = os.path.join(sc.dir, "left%d" % i)
         src, tpl, fl = make_world(base, r, i)
         fl = dict(fl); fl.pop("delete", None); fl.pop("force", None); fl.pop("thr", None)
+        fl.pop("so", None)       # under --size-only a same-size file with other bytes is rightly left alone: the oracle below asks for the source's bytes everywhere
         if i % 2 == 1:
             # with --delete and several workers: the leftover working files are extra destination entries, yet the updates that reuse
             # them must not lose them to a concurrent delete task
